@@ -163,10 +163,15 @@ class HTTPFile(io.IOBase):
         This calls `get_cache_chunk` and thus downloads cache
         chunks when necessary.
         """
+        # never read beyond the end of the resource
+        stop = min(stop, self.length)
         toread = stop - start
-        # compute the chunk indices between start and stop
+        if toread <= 0:
+            return b""
+        # compute the chunk indices between start and stop (the chunk of
+        # the last byte requested is the last chunk we need)
         chunk_start = np.int64(start // self._chunk_size)
-        chunk_stop = np.int64(stop // self._chunk_size + 1)
+        chunk_stop = np.int64((stop - 1) // self._chunk_size + 1)
         data = b""
         pos = start
         for chunk_index in range(chunk_start, chunk_stop):
